@@ -391,3 +391,53 @@ Definition model_throws (fn : Z) (a : argval) : bool :=
   | 6 => negb (is_array_length a)
   | _ => false
   end.
+
+(* ------------------------------------------------------------------ *)
+(* in / instanceof: what is converted, and when                         *)
+
+(* left operand: a primitive; an object whose toString returns a key; whose
+   toString throws; whose toString returns an object so that valueOf is asked
+   (returning a key / throwing).  Every conversion method logs itself. *)
+Inductive lop := LPrim | LStr | LThrow | LVal | LValThrow.
+(* right operand: a primitive; a plain object that has the key (its own
+   conversion methods log too); a function whose prototype the left objects
+   inherit from; a function whose "prototype" is not an object *)
+Inductive rop := RPrim | RObj | RFun | RFunBadProto.
+
+(* outcome: 0 false, 1 true, 6 the interpreter's TypeError, 90 the exception
+   thrown by the operand's own conversion method;
+   log: 1 left.toString, 2 left.valueOf (the right operand's methods would be 3, 4) *)
+Definition l_is_object (l : lop) : bool := match l with LPrim => false | _ => true end.
+
+(* Value.string() of the left operand: (log, does it throw) *)
+Definition l_tostring (l : lop) : list Z * bool :=
+  match l with
+  | LPrim => ([], false)
+  | LStr => ([1], false)
+  | LThrow => ([1], true)
+  | LVal => ([1; 2], false)
+  | LValThrow => ([1; 2], true)
+  end.
+
+(* evaluate.go calculateBinaryExpression, token.IN: the right operand is
+   checked first, then hasProperty(leftValue.string()) *)
+Definition model_in (l : lop) (r : rop) : Z * list Z :=
+  match r with
+  | RPrim => (6, [])
+  | _ => let '(lg, thr) := l_tostring l in
+         if thr then (90, lg) else ((match r with RObj => 1 | _ => 0 end), lg)
+  end.
+
+(* token.INSTANCEOF: right not an object -> TypeError; object.hasInstance: not
+   callable -> TypeError; left not an object -> false; prototype not an object
+   -> TypeError; prototype chain walk *)
+Definition model_instanceof (l : lop) (r : rop) : Z * list Z :=
+  match r with
+  | RPrim => (6, [])
+  | RObj => (6, [])
+  | RFun => ((if l_is_object l then 1 else 0), [])
+  | RFunBadProto => ((if l_is_object l then 6 else 0), [])
+  end.
+
+Definition model_order (op : Z) (l : lop) (r : rop) : Z * list Z :=
+  if op =? 0 then model_in l r else model_instanceof l r.
